@@ -928,6 +928,7 @@ func runIO(r *rec, tc *toolchain) {
 		r.Count("io:runs")
 	}
 	r.Extra("io_calls", ncalls)
+	nIOCalls = ncalls
 }
 
 func imin(a, b int) int {
